@@ -103,6 +103,9 @@ struct Pow14 {
             long double e = 1; for (int k = 0; k < N; ++k) e *= (long double)x;
             long double got = (long double)r.in(typename decltype(r)::Unit{});
             if (std::isfinite(e) && std::fabs(e) < (long double)std::numeric_limits<R>::max() && std::fabs(e) > (long double)std::numeric_limits<R>::min() && std::fabs(got - e) > 4 * std::fabs(e) * (long double)std::numeric_limits<R>::epsilon()) fail(x, "int_pow<" + std::to_string(N) + "> off by more than 4 ulp");
+            // negative power = raw reciprocal of the library's own positive power (x^-n is 1/(x^n) evaluated with the raw operators)
+            { R pos = r.in(typename decltype(r)::Unit{}); R neg = rn.in(typename decltype(rn)::Unit{}); R expect = R(1) / pos;
+              if (N >= 1 && !beq14(neg, expect)) fail(x, "int_pow<-" + std::to_string(N) + ">(q) = " + val_s(neg) + " is not the raw reciprocal 1/int_pow<" + std::to_string(N) + ">(q) = " + val_s(expect)); }
             long double en = 1 / e, gotn = (long double)rn.in(typename decltype(rn)::Unit{});
             if (x != 0 && std::isfinite(en) && std::fabs(en) < (long double)std::numeric_limits<R>::max() && std::fabs(en) > (long double)std::numeric_limits<R>::min() && std::isfinite(e) && std::fabs(e) < (long double)std::numeric_limits<R>::max() && std::fabs(e) > (long double)std::numeric_limits<R>::min() && std::fabs(gotn - en) > 8 * std::fabs(en) * (long double)std::numeric_limits<R>::epsilon()) fail(x, "int_pow<-" + std::to_string(N) + "> off by more than 8 ulp");
         }
